@@ -67,9 +67,9 @@ type termKey struct {
 
 type TermTable struct {
 	NoRewrite bool // build terms literally (self-test of the rewrites)
-	tab  map[termKey]*Term
-	next int
-	vars []*Term
+	tab       map[termKey]*Term
+	next      int
+	vars      []*Term
 }
 
 func NewTermTable() *TermTable { return &TermTable{tab: map[termKey]*Term{}} }
